@@ -91,12 +91,16 @@ func newConcurrentProcess(par int) *concurrentProcess {
 
 func (proc *concurrentProcess) run(eg *errgroup.Group, exec *cmdExecution, callback func([]byte, error) error) {
 	proc.wg.Add(1)
+	verifPoint("submit", exec)
 	eg.Go(func() error {
 		defer proc.wg.Done()
+		defer verifPoint("callback", exec)
 		if err := proc.sema.Acquire(proc.ctx, 1); err != nil {
 			return fmt.Errorf("could not acquire semaphore to run %q: %w", exec.cmd, err)
 		}
+		verifPoint("acquire", exec)
 		stdout, err := exec.run()
+		verifPoint("finish", exec)
 		proc.sema.Release(1)
 		return callback(stdout, err)
 	})
@@ -105,6 +109,7 @@ func (proc *concurrentProcess) run(eg *errgroup.Group, exec *cmdExecution, callb
 // wait waits all goroutines started by this concurrentProcess instance finish.
 func (proc *concurrentProcess) wait() {
 	proc.wg.Wait() // Wait for all goroutines completing to shutdown
+	verifPoint("procWait", nil)
 }
 
 // newCommandRunner creates new external command runner for given executable. The executable path
